@@ -468,7 +468,7 @@ def run_check(pid, tier, seed, workers=None, quiet=False):
         "evaluations": total.evals,
         "distinct_nontrivial": len(total.nontrivial),
         "rule": mod.RULE,
-        "samples": total.samples[:6],
+        "samples": [_trim_sample(x) for x in total.samples[:4]],
         "exhaustive": bool(getattr(mod, "EXHAUSTIVE", {}).get(tier, False)) and units_skipped == 0,
         "runs": total.evals,
         "steps": total.steps,
@@ -516,6 +516,16 @@ def run_check(pid, tier, seed, workers=None, quiet=False):
         % (pid, total.evals, len(total.nontrivial), total.steps, len(total.states), new_violations, len(known_hit), wall)
     )
     return exit_code
+
+
+def _trim_sample(sample, keep=30):
+    """Samples are there to show what a case looks like; very long op lists are cut (with a count)."""
+    case = dict(sample.get("case", {}))
+    ops = case.get("ops", [])
+    if len(ops) > keep:
+        case["ops"] = ops[:keep]
+        case["ops_total"] = len(ops)
+    return {"case": case, "outcome": sample.get("outcome")}
 
 
 def replay(path):
